@@ -111,6 +111,8 @@ class Exec:
         self.numeric = numeric  # float-mode object (see floats.py) or None for mode R
         self.trace = trace if trace is not None else {"inlined": set(), "handlers": set(), "assumed": set()}
         self.inline_prefixes = ()
+        self.replay = False
+        self.outer_ids = None   # ids of the path conditions at the entry of the outermost enclosing loop / comprehension
         self._bg_keys = set()
         self.index_ctx = []   # enclosing loop indices (z3 Int terms): fresh symbols become functions of them
         self.loop_tag = ()
@@ -123,8 +125,20 @@ class Exec:
         c.index_ctx = list(self.index_ctx)
         c.loop_tag = self.loop_tag
         c.inline_prefixes = self.inline_prefixes
+        c.replay = self.replay
+        c.outer_ids = self.outer_ids
         c._bg_keys = self._bg_keys
         return c
+
+    def enter_iteration(self, sub, p):
+        """mark `sub` as executing one iteration of a loop / comprehension entered on path p"""
+        if sub.outer_ids is None:
+            sub.outer_ids = frozenset(c.get_id() for c in p.cond)
+        return sub
+
+    def event_path(self, p):
+        """path identity for ghost events: inside an iteration, the path on which the loop was entered"""
+        return self.outer_ids if self.outer_ids is not None else frozenset(c.get_id() for c in p.cond)
 
     def fresh_sym(self, sort, prefix, node=None):
         """A fresh symbol; inside a summarised loop body a function of the loop indices, named after the
@@ -140,7 +154,7 @@ class Exec:
         """Defining axioms of fresh symbols (definitional extension; guarded so they are always satisfiable).
         Inside a summarised loop body the fresh symbols are functions of the loop indices and the body is
         re-executed at arbitrary index terms (also under quantifiers), so the axioms are stated for ALL index values."""
-        f = z3.And(*facts)
+        f = z3.And(*facts) if len(facts) != 1 else facts[0]
         if guard is not None:
             f = z3.Implies(guard, f)
         vs, seen = [], set()
@@ -588,6 +602,28 @@ class Exec:
         """Value-returning short-circuit and/or."""
         isand = isinstance(n.op, ast.And)
         results = []
+        # `xs or []` / `d or {}` with a (possibly None) symbolic list / dict: the empty default equals the empty
+        # operand as a value, so the result is one merged list (no path fork)
+        if (not isand and len(n.values) == 2 and isinstance(n.values[1], (ast.List, ast.Dict))
+                and not getattr(n.values[1], "elts", None) and not getattr(n.values[1], "keys", None)):
+            merged = []
+            for p1, v in self.ev(n.values[0], p):
+                isnone = v.isnone if isinstance(v, Opt) else z3.BoolVal(False)
+                inner = v.val if isinstance(v, Opt) else v
+                if isinstance(inner, Lst) and isinstance(n.values[1], ast.List):
+                    ln = inner.length()
+                    merged.append((p1, inner if not isinstance(v, Opt) else Lst(n=z3.If(isnone, 0, ln), at=inner.at if not inner.concrete else (lambda i, inner=inner: inner.at(i)))))
+                elif isinstance(inner, DctL) and isinstance(n.values[1], ast.Dict):
+                    kn = inner.keys.length()
+                    nn = z3.If(isnone, 0, kn)
+                    merged.append((p1, DctL(Lst(n=nn, at=inner.keys.at), Lst(n=nn, at=inner.vals.at))))
+                elif isinstance(v, NoneV):
+                    merged.append((p1, Lst(items=[]) if isinstance(n.values[1], ast.List) else Dct([])))
+                else:
+                    merged = None
+                    break
+            if merged is not None:
+                return merged
 
         def go(k, path):
             for p1, v in self.ev(n.values[k], path):
@@ -860,8 +896,6 @@ class Exec:
                     out.append((q, Dct(acc) if kind == "dict" else Lst(items=acc)))
                 continue
             if kind == "dict":
-                if g.ifs:
-                    raise Unsupported("filtered dict comprehension over symbolic list")
                 kn = ast.copy_location(ast.ListComp(elt=n.key, generators=n.generators), n)
                 vn = ast.copy_location(ast.ListComp(elt=n.value, generators=n.generators), n)
                 out.append((p1, DctL(self.sym_comprehension(kn, g, seq, p1), self.sym_comprehension(vn, g, seq, p1))))
@@ -880,13 +914,14 @@ class Exec:
         if g.ifs:
             from .loops import filtered_list
             return filtered_list(self, n.elt, g, seq, p)
-        from .loops import comp_key
+        from .loops import comp_key, cache_lookup
         cache = self.trace.setdefault("_comp_cache", {})
         key = comp_key(self, n.elt, g, seq, p)
-        if key in cache:
-            return cache[key][0]
+        hit = cache_lookup(cache, key, p)
+        if hit is not None:
+            return hit
         res = self._map_comprehension(n, g, seq, p)
-        cache[key] = (res, seq)
+        cache.setdefault(key, []).append((res, seq, {c.get_id() for c in p.cond}, list(p.cond)))
         return res
 
     def _map_comprehension(self, n, g, seq: Lst, p):
@@ -894,7 +929,10 @@ class Exec:
         def at(i):
             sub = self.child()
             sub.implicit_exc = False
-            qs = sub.assign(g.target, seq.at(i), Path(p.cond, p.env, None, p.heap), n)
+            sub.replay = True     # a re-evaluation of an element expression: ghost effects were logged by the eager pass
+            sub.index_ctx = self.index_ctx + [i]
+            self.enter_iteration(sub, p)
+            qs = sub.assign(g.target, seq.at(i), Path(p.cond + [i >= 0, i < seq.n], p.env, None, p.heap), n)
             res = [(q2, v) for q in qs for (q2, v) in sub.ev(n.elt, q)]
             if len(res) != 1:
                 # merge
@@ -907,7 +945,8 @@ class Exec:
         if self.implicit_exc:
             # implicit exceptions inside the element expression: checked for a generic index
             i = fresh_int("ci")
-            sub = self.child()
+            sub = self.enter_iteration(self.child(), p)
+            sub.index_ctx = self.index_ctx + [i]
             qs = sub.assign(g.target, seq.at(i), p.fork(i >= 0, i < seq.n), n)  # p carries the heap
             for q in qs:
                 sub.ev(n.elt, q)
@@ -931,6 +970,12 @@ class Exec:
             if h:
                 r = h(self, p, [v], {}, node)
                 return r[0][1]
+            from .calls import _is_model
+            if _is_model(self, v.cls):
+                # pydantic: iterating a model yields (field name, value) for the declared fields, in order
+                self.trace["assumed"].add("pydantic: iterating a model yields (name, value) for its declared fields in order")
+                names = [f["name"] for f in self.repo.class_fields(v.cls)]
+                return Lst(items=[Tup([Str(k), v.fields[k]]) for k in names if k in v.fields])
         raise Unsupported(f"{self.module.name}:{getattr(node, 'lineno', '?')}: iteration over {type(v).__name__}")
 
     # calls ----------------------------------------------------------------------------
